@@ -6,6 +6,7 @@ import (
 	"encoding/binary"
 	"encoding/hex"
 	"fmt"
+	"github.com/klauspost/compress/zstd"
 	"io"
 	"math/rand"
 	"net/url"
@@ -799,6 +800,81 @@ func runC20(cfg Config) {
 			monitor("the chunk reads back changed from the target store", caseLine, "")
 		}
 	}
+	// stores written by casync: libzstd's streaming API writes frames with a Window_Descriptor (2 MiB at casync's
+	// level 3) and without a content size, in one or several blocks.  Such files are built here by hand from RFC 8878
+	// (raw and RLE blocks, any window size a conforming encoder may declare) and by the streaming encoder of the Go
+	// zstd package: a compressed store must read them, and verify must find nothing wrong with them
+	{
+		cdir := filepath.Join(cfg.Work, "casync-store")
+		os.RemoveAll(cdir)
+		os.MkdirAll(cdir, 0755)
+		cst, _ := desync.NewLocalStore(cdir, desync.StoreOptions{})
+		var ids []desync.ChunkID
+		for it := 0; it < cfg.N(60, 1500); it++ {
+			var data []byte
+			switch it % 4 {
+			case 0:
+				data = randBytes(rng, 1+rng.Intn(300))
+			case 1:
+				data = randBytes(rng, 1+rng.Intn(300000))
+			case 2:
+				data = make([]byte, 1+rng.Intn(262144))
+			default:
+				data = bytes.Repeat([]byte("casync "), 1+rng.Intn(20000))
+			}
+			id := desync.ChunkID(desync.Digest.Sum(data))
+			windowLog := []int{10, 17, 20, 21, 21, 21, 22, 23, 27}[rng.Intn(9)] // 21 = 2 MiB, what casync's files declare
+			var frame []byte
+			how := "rfc8878-raw-blocks"
+			if it%3 == 2 {
+				how = "streaming-encoder"
+				var fb bytes.Buffer
+				w, err := zstd.NewWriter(&fb, zstd.WithWindowSize(1<<uint(windowLog)), zstd.WithEncoderLevel(zstd.SpeedDefault))
+				if err != nil {
+					continue
+				}
+				for pos := 0; pos < len(data); { // several writes: no content size known up front
+					n := 1 + rng.Intn(70000)
+					if pos+n > len(data) {
+						n = len(data) - pos
+					}
+					w.Write(data[pos : pos+n])
+					pos += n
+				}
+				w.Close()
+				frame = fb.Bytes()
+			} else {
+				frame = rfc8878Frame(data, windowLog, rng)
+			}
+			sid := id.String()
+			os.MkdirAll(filepath.Join(cdir, sid[:4]), 0755)
+			os.WriteFile(filepath.Join(cdir, sid[:4], sid+".cacnk"), frame, 0644)
+			ids = append(ids, id)
+			caseLine := fmt.Sprintf("casync-frame how=%s window-log=%d len=%d frame-head=%s", how, windowLog, len(data), hx(frame[:min(len(frame), 12)]))
+			rep.Count(caseLine, len(data) > 1, "casync-frame:"+how)
+			if ok, err := cst.HasChunk(id); err != nil || !ok {
+				monitor("HasChunk does not see a casync-written chunk file", caseLine, fmt.Sprint(err))
+			}
+			c, err := cst.GetChunk(id)
+			if err != nil {
+				monitor("a compressed store cannot read a standard zstd frame as libzstd's streaming API writes it: "+err.Error(), caseLine, "")
+				continue
+			}
+			if b, err := c.Data(); err != nil || !bytes.Equal(b, data) {
+				monitor("a casync-written chunk reads back changed", caseLine, fmt.Sprint(err))
+			}
+		}
+		var vout bytes.Buffer
+		if err := cst.Verify(context.Background(), 2, true, &vout); err != nil || vout.Len() > 0 {
+			monitor("verify (with repair) objects to casync-written chunk files: "+clip(vout.String(), 300), "casync-frame verify", fmt.Sprint(err))
+		}
+		for _, id := range ids {
+			if ok, _ := cst.HasChunk(id); !ok {
+				monitor("verify --repair removed a valid casync-written chunk file", "casync-frame verify id="+id.String(), "")
+				break
+			}
+		}
+	}
 	rep.Write(cfg.Out)
 }
 
@@ -938,4 +1014,48 @@ func walkZstdFrames(b []byte) (int, int, error) {
 		frames++
 	}
 	return first, frames, nil
+}
+
+// rfc8878Frame builds one zstd frame by hand: magic, a frame header with a Window_Descriptor and no content size (what
+// a streaming encoder writes), then raw blocks (and RLE blocks for runs of one byte), the last one flagged
+func rfc8878Frame(data []byte, windowLog int, rng *rand.Rand) []byte {
+	out := []byte{0x28, 0xb5, 0x2f, 0xfd, 0x00, byte((windowLog - 10) << 3)}
+	maxBlock := 128 << 10
+	if w := 1 << uint(windowLog); w < maxBlock {
+		maxBlock = w
+	}
+	blockHdr := func(last bool, typ, size int) []byte {
+		v := uint32(size)<<3 | uint32(typ)<<1
+		if last {
+			v |= 1
+		}
+		return []byte{byte(v), byte(v >> 8), byte(v >> 16)}
+	}
+	pos := 0
+	for {
+		n := 1 + rng.Intn(maxBlock)
+		if pos+n > len(data) {
+			n = len(data) - pos
+		}
+		last := pos+n == len(data)
+		blk := data[pos : pos+n]
+		rle := n > 1
+		for _, b := range blk {
+			if b != blk[0] {
+				rle = false
+				break
+			}
+		}
+		if rle {
+			out = append(out, blockHdr(last, 1, n)...)
+			out = append(out, blk[0])
+		} else {
+			out = append(out, blockHdr(last, 0, n)...)
+			out = append(out, blk...)
+		}
+		pos += n
+		if last {
+			return out
+		}
+	}
 }
